@@ -101,19 +101,19 @@ def check(ctx, run):
     rd = prog.fn(DET + "::validMemoryCorruptionInformation")
     run.analysed(wr)
     run.analysed(rd)
-    ev = Evaluator(prog, wr, env=dict(genv, **{wr.params[0]["name"]: 5000}))
+    ev = Evaluator(prog, wr, env=dict(genv, **{wr.params[0]["name"]: ("ptr", "G", 0)}))
     try:
         ev.run_blocks(wr.entry, max_steps=400)
-        written = {k: v for k, v in ev.stores if k.startswith(wr.params[0]["name"] + "[")}
+        written = {k: v for k, v in ev.stores if k.startswith("G[")}
     except Unknown as u:
         written = "unknown: %s" % u
-    okw = isinstance(written, dict) and sorted(written) == ["%s[%d]" % (wr.params[0]["name"], i) for i in range(n_guard)]
+    okw = isinstance(written, dict) and sorted(written) == ["G[%d]" % i for i in range(n_guard)]
     run.ob("R2", "the writer fills exactly the %d guard bytes" % n_guard, wr.site, okw, witness=written)
     if okw:
-        mem = {("%s[%d]" % (rd.params[0]["name"], i)): written["%s[%d]" % (wr.params[0]["name"], i)] for i in range(n_guard)}
+        mem = dict(written)
 
         def valid(memory):
-            e2 = Evaluator(prog, rd, env=dict(genv, **memory, **{rd.params[0]["name"]: 5000}))
+            e2 = Evaluator(prog, rd, env=dict(genv, **memory, **{rd.params[0]["name"]: ("ptr", "G", 0)}))
             try:
                 e2.run_blocks(rd.entry, max_steps=400)
                 return getattr(e2, "ret", None)
@@ -122,7 +122,7 @@ def check(ctx, run):
         got = valid(mem)
         run.ob("R2", "intact guard bytes validate", rd.site, got == 1, witness={"folded": got})
         for pos in range(n_guard):
-            key = "%s[%d]" % (rd.params[0]["name"], pos)
+            key = "G[%d]" % pos
             for newv in (0, 1, mem[key] ^ 0x20, (mem[key] + 1) & 0x7f, -1, 0x7f, -128, gb[(pos + 1) % len(gb)]):
                 if newv == mem[key]:
                     continue
@@ -131,14 +131,33 @@ def check(ctx, run):
                 got = valid(m2)
                 run.ob("R2", "guard byte %d changed to %d is detected" % (pos, newv), rd.site, got == 0, witness={"folded": got},
                        what="" if got == 0 else "an overrun that changes only guard byte %d goes unreported" % pos)
+    # where writer and reader are applied: folded over a heap model with a record describing block 70000 of 13 bytes
+    NODE, BLK, SZ = 6000, 70000, 13
     for f in prog.functions.values():
         if f.cls != DET:
             continue
-        for c in f.calls():
-            nm = (prog.callee_name(f, c) or "")
-            if nm in (DET + "::addMemoryCorruptionInformation", DET + "::validMemoryCorruptionInformation"):
-                a0 = render(f, f.args(c)[0])
-                run.ob("R2", "%s calls %s on memory + size" % (f.name, nm.split("::")[-1]), f.site, a0 == "(node->memory_ + node->size_)", witness=a0)
+        cs = [c for c in f.calls() if (prog.callee_name(f, c) or "") in (DET + "::addMemoryCorruptionInformation", DET + "::validMemoryCorruptionInformation")]
+        if not cs:
+            continue
+        run.analysed(f)
+        seen = []
+        env = {"@%d.memory_" % NODE: BLK, "@%d.size_" % NODE: SZ, "@%d.allocator_" % NODE: 9000}
+        for q in f.params:
+            ct = q["ct"]
+            env[q["name"]] = NODE if ct == "MemoryLeakDetectorNode *" else (BLK if ct == "char *" else (SZ if ct == "unsigned long" and q["name"] != "line" else 9))
+        ev = Evaluator(prog, f, env=env, calls={
+            DET + "::addMemoryCorruptionInformation": lambda *a_: (seen.append(a_[-1]), 0)[1], DET + "::validMemoryCorruptionInformation": lambda *a_: (seen.append(a_[-1]), 1)[1],
+            DET + "::matchingAllocation": lambda *a_: 1, "TestMemoryAllocator::actualAllocator": lambda *a_: 9000, "MemoryLeakDetectorNode::init": None})
+        ev.heap_mode = True
+        ev.inline = {"MemoryLeakDetectorNode::init"}
+        del ev.calls["MemoryLeakDetectorNode::init"]
+        try:
+            ev.run_blocks(f.entry, max_steps=400)
+        except Unknown as u:
+            run.broke("C06.R2: %s cannot be folded: %s" % (f.qn, u))
+            continue
+        run.ob("R2", "%s applies the guard writer/reader at block + size (folded over a record of a %d-byte block)" % (f.name, SZ), f.site, seen == [BLK + SZ], witness=[x - BLK if isinstance(x, int) else x for x in seen],
+               what="" if seen == [BLK + SZ] else "the guard bytes are written or checked at offset %s of a %d-byte block" % ([x - BLK if isinstance(x, int) else x for x in seen], SZ))
 
     # ---------------- R3 ----------------------------------------------------
     dm = [f for f in prog.fns(DET + "::deallocMemory") if len(f.params) == 5][0]
@@ -152,7 +171,7 @@ def check(ctx, run):
             if names:
                 why.append("releasing NULL does something: %s" % names)
         else:
-            nd = val.get("node")
+            nd = next((v for k, v in origin_val(dm, p).items() if "removeNode(" in k), None)
             if names[:1] != ["removeNode"]:
                 why.append("the record is not looked up and removed first")
             if nd is False:
